@@ -18,7 +18,7 @@ RULE = ("seeded circuits (hierarchy 0-1, several nodes per type, edges) x parame
         "monitor: a second sweep with one row changed must leave all other columns bit-identical; non-trivial = >= 2 rows and "
         ">= 2 parameters; distinct = distinct (spec, grid) hash")
 DECIDING = ['columns_compared', 'rows_in_grids', 'large_grids', 'dataframe_grids_nondefault_index', 'edge_param_keys', 'node_param_keys', 'multi_target_keys', 'permuted_grids',
-            'input_sweeps', 'uncoupled_checks', 'vectorized_sweeps', 'parallel_edge_keys', 'repeated_input_sweeps', 'int_declared_sweep_keys']
+            'input_sweeps', 'uncoupled_checks', 'vectorized_sweeps', 'parallel_edge_keys', 'repeated_input_sweeps', 'int_declared_sweep_keys', 'edges_added_in_place_before_sweep']
 ASSUMPTIONS = ['the returned parameter table (index = circuit labels) is the authority for which values belong to which column']
 CASE_TIMEOUT = 300
 
@@ -199,9 +199,40 @@ def run_case(case, ctx):
 
     inputs_obj = {k: v.copy() for k, v in inputs.items()} if inputs else None
 
+    # some plain edges (not the swept ones, no parallel twins) are added to the finished circuit IN PLACE (add_edges_from_matrix /
+    # update_template(in_place=True)) before the sweep: sweeping an attribute of an ORIGINAL edge must still reach that edge
+    swept_pairs = {(e_[0], e_[1]) for v_ in param_map.values() for e_ in v_.get('edges', [])}
+    all_pairs = [(x[0], x[1]) for x in top_edges]
+    late_idx = [i for i, x in enumerate(top_edges) if x[2] is None and set(x[3]) <= {'weight'} and (x[0], x[1]) not in swept_pairs
+                and all_pairs.count((x[0], x[1])) == 1]
+    late_how = None
+    if swept_pairs and late_idx and rnd.random() < 0.5:
+        late_idx = sorted(rnd.sample(late_idx, rnd.randint(1, min(2, len(late_idx)))))
+        late_how = rnd.choice(['update_template', 'add_edges_from_matrix'])
+        mech['edges_added_in_place_before_sweep'] = 1
+    else:
+        late_idx = []
+
+    def build_template():
+        if not late_idx:
+            return build.build_python(base)[0]
+        early = copy.deepcopy(base)
+        early['circ']['edges'] = [e_ for i, e_ in enumerate(base['circ']['edges']) if i not in late_idx]
+        t_ = build.build_python(early)[0]
+        for i in late_idx:
+            s_, t2_, _, a_ = base['circ']['edges'][i]
+            if late_how == 'add_edges_from_matrix':
+                sn, so, sv = s_.rsplit('/', 2)
+                tn, to, tv = t2_.rsplit('/', 2)
+                t_.add_edges_from_matrix(source_var=f'{so}/{sv}', target_var=f'{to}/{tv}', source_nodes=[sn], target_nodes=[tn],
+                                         weight=np.array([[float(a_.get('weight', 1.0))]]), min_weight=0.0)
+            else:
+                t_.update_template(edges=[(s_, t2_, None, dict(a_))], in_place=True)
+        return t_
+
     def sweep(g):
         from pyrates import grid_search
-        tmpl, _ = build.build_python(base)
+        tmpl = build_template()
         pm_ = {k_: {a_: b_ for a_, b_ in v_.items() if a_ != 'edge_index'} for k_, v_ in copy.deepcopy(param_map).items()}
         # (the caller's inputs dictionary is one object that is handed to every sweep of this case)
         return grid_search(circuit_template=tmpl, param_grid=as_grid(g), param_map=pm_, step_size=dt,
